@@ -16,6 +16,8 @@ enum What {
     Java { via_settings: bool },
     Bedrock,
     Legacy(LegacyKind),
+    /// the 1.4 ping (FE 01) answered in the paragraph-1 format, as 1.4 and 1.5 servers do
+    Legacy14AnsweredInNewFormat,
     /// subset bitmask (java, bedrock, 1.6, 1.4, b1.8), port given?, entry 0..4
     Auto { subset: u8, port_given: bool, entry: u8 },
 }
@@ -38,6 +40,7 @@ fn build(tier: Tier) -> Vec<Case> {
         Case { label: format!("legacy 1.6 dev<={dev}"), what: What::Legacy(LegacyKind::V1_6), bound: dev },
         Case { label: format!("legacy 1.4 dev<={dev}"), what: What::Legacy(LegacyKind::V1_4), bound: dev },
         Case { label: format!("legacy beta 1.8 dev<={dev}"), what: What::Legacy(LegacyKind::VB1_8), bound: dev },
+        Case { label: format!("legacy 1.4 ping answered in the 1.4-1.5 servers' format (section sign, 1, NUL-separated fields) dev<={dev}"), what: What::Legacy14AnsweredInNewFormat, bound: dev },
     ];
     for subset in 0 .. 32u8 {
         for port_given in [true, false] {
@@ -163,6 +166,29 @@ impl Prop for C03 {
                     move || mc::protocol::query_legacy_specific(group, &a, None),
                     |s| s.expected(),
                     |t| t,
+                );
+            }
+            What::Legacy14AnsweredInNewFormat => {
+                explore_decode(
+                    ctx,
+                    case.bound,
+                    "legacy-V1_4-new-format",
+                    // the state is one of the NUL-separated format; the server gives it in answer to the 1.4 ping
+                    move |c| gen_legacy(c, LegacyKind::V1_6),
+                    move |s| {
+                        let mut m = McServer::none();
+                        m.v1_4 = Some(s.clone());
+                        Box::new(m)
+                    },
+                    move || mc::protocol::query_legacy_specific(mc::LegacyGroup::V1_4, &a, None),
+                    |s| s.expected(),
+                    // which of the two legacy groups such an answer is labelled with is not fixed by the formats
+                    |mut t| {
+                        if matches!(t.server_type, mc::Server::Legacy(mc::LegacyGroup::V1_4 | mc::LegacyGroup::V1_6)) {
+                            t.server_type = mc::Server::Legacy(mc::LegacyGroup::V1_6);
+                        }
+                        t
+                    },
                 );
             }
             What::Auto { subset, port_given, entry } => {
